@@ -331,3 +331,5 @@ func isEOF(err error) bool {
 	}
 	return false
 }
+
+func FuzzVerifC07Rtmp(f *testing.F) { vC07FuzzTarget(f, TestVerifC07Rtmp) }
